@@ -48,12 +48,16 @@ Definition d_decl : dec decl := fun x =>
   match x with
   | L [A k; A [l]; sc] => match dbool sc with Some sc => Some {| d_key := k; d_line := l; d_second := sc |} | None => None end
   | _ => None end.
+(* printing: gengo's splitLines gives [""] both for "no block" and for a block without text (only
+   directives such as //go:generate); the harness prints the implementation's [""] as the empty
+   list, and so does this side *)
+Definition norm_lines (l : list str) : list str := match l with [[]] => [] | _ => l end.
 Definition run_comments (inp : sexp) : option sexp :=
   match inp with
   | L [gs; ds] => match dlist d_group gs, dlist d_decl ds with
                   | Some gs, Some ds =>
                       let m := index gs in
-                      Some (elist (fun d => let '(c1, c2) := deliver m d in L [A (d_key d); elist estr c1; elist estr c2]) ds)
+                      Some (elist (fun d => let '(c1, c2) := deliver m d in L [A (d_key d); elist estr (norm_lines c1); elist estr (norm_lines c2)]) ds)
                   | _, _ => None end
   | _ => None end.
 Definition run_pkgcomments (inp : sexp) : option sexp :=
